@@ -3,7 +3,7 @@
 
 usage: tools/eval_all.py <out_dir> <seeded_dir> [<seeded_dir> ...]      (a seeded_dir holds patch.diff)
        tools/eval_all.py <out_dir> --queue FILE     (FILE lists seeded_dirs, may grow while running, ends with a line END)
-       EVAL_SLOTS=1,2,3,4 selects the clones / worktrees to use
+       EVAL_SLOTS=1,2,3,4 selects the clones / worktrees to use; EVAL_ONLY_TARGET=1 runs only the target property's check
 
 Uses the clones /tmp/vpar/{1,2,3} of /verif (brought to the committed HEAD of /verif first) and the scratch worktrees
 /tmp/wt/eval{1,2,3} of /repo: the patch is applied to the worktree, every quick_cmd of MANIFEST.json runs in the clone
@@ -36,7 +36,10 @@ def work(d):
         try:
             man = json.load(open(os.path.join(clone, "MANIFEST.json")))
             env = dict(os.environ, NASIM_REPO=repo, PYTHONPATH=repo, VERIF_NPROC="5", VERIF_SEED=os.environ.get("VERIF_SEED", "0"))
+            only = os.environ.get("EVAL_ONLY_TARGET")
             for c in man["checks"]:
+                if only and c["property_id"] != sid.split("-")[0]:
+                    continue                       # EVAL_ONLY_TARGET=1: just the check of the property the change breaks
                 p = subprocess.run(c["quick_cmd"].split(), cwd=clone, capture_output=True, text=True, env=env)
                 vio = [l for l in p.stdout.split("\n") if l.startswith("VIOLATION")]
                 detail = ""
